@@ -75,7 +75,10 @@ static int validate_checksums(zckCtx *zck, zck_log_type bad_checksums) {
     bool all_good = true;
     bool truncated = false;
     for(zckChunk *idx = zck->index.first; idx; idx = idx->next) {
-        if(idx == zck->index.first && idx->length == 0) {
+        /* No dictionary: nothing is stored for the first entry.  (A first
+         * entry without content whose stored bytes are the compressed form
+         * of nothing is scanned like any other chunk) */
+        if(idx == zck->index.first && idx->comp_length == 0) {
             idx->valid = 1;
             if(zck->header_only)
                 break;
